@@ -19,7 +19,7 @@ func canonWS(s string) string { return strings.TrimSpace(interTagWS.ReplaceAllSt
 type rewrite struct {
 	name string
 	opts func(r *Rng) PrintOpts
-	pre  func(r *Rng) string // text placed before the root
+	pre  func(r *Rng) string         // text placed before the root
 	tree func(r *Rng, n *Node) *Node // an equivalent tree (nil = the tree as it is)
 }
 
